@@ -40,6 +40,9 @@ EXPLANATION = (
     "folded (16 entries) and compared with the alignment rule; the key is "
     "(A % 4, N % 4) for the A, N passed as arg1, arg2. R3/R4: constant and "
     "normal-form comparisons. R5: role-preserving argument forwarding.")
+EXPLANATION += (
+    " C15-R1 (SDP header bytes, full field widths) is re-run: the core "
+    "number of a memory command needs all five bits.")
 NOT_DECIDED = [
     "behaviour under faults beyond what C06 gives",
     "the machine's side of each command",
